@@ -20,6 +20,12 @@ CHECKS = {
  "C05": ("exploration", "exhaustive enumeration of a (start, dt, steps) lattice; grid labels compared with == against the Decimal grid on every channel",
          "Every (start, dt, n) of the lattice (n <= 40 quick, <= 400 thorough): timerange, run_scenarios df/dict/json, plot, stepwise session keys and session_results equal the exact decimal grid label by label; a step-counting stock returns i on every arithmetic route to grid point i.",
          "dt and start with finite decimal expansions only; the session is begun with the model's own start and dt.", "§4 C05"),
+ "C06": ("model_checking", "explicit-state BFS over register/run/session/re-parameterise/reset histories on a real bptk object; every scenario and the base model compared with the reference after every transition",
+         "All histories to depth 3 (thorough 4) over run, stepwise session, set constant/points/run spec (configure_settings+reset, session settings, step settings), reset cache, registering a second manager from the same model object and a further scenario: after every transition each scenario's run equals the Euler reference with exactly its settings, and the base model's values and points are unchanged.",
+         "Settings changed through configure_settings+reset_scenario_cache or session/step settings; a scenario that received step-level settings is not judged itself afterwards; hybrid managers not covered.", "§4 C06"),
+ "C07": ("exploration", "complete enumeration of the product model kind x channel x manager base values x scenario setting against the direct build",
+         "Every combination of {DSL, XMILE} x {dict registration, register_model, one scenario file, manager spread over two files, session settings, REST /run settings} x base values x {constant(s), points, start, stop, dt, combinations}: the overriding scenario and its sibling equal the Euler reference carrying exactly their effective values on their own grid.",
+         "Run specs for DSL models only; YAML files and hybrid models not covered; reference interpreter trusted.", "§4 C07"),
  "C08": ("model_checking", "explicit-state BFS over edit/evaluate/reset/run histories (fixpoint reached) + stateless preemption-bounded exploration of the SdSimulation worker-thread schedules under a controlled scheduler (sys.settrace line points, baton)",
          "(a) every history of equation/initial-value/constant edits, evaluations, cache resets and runs up to depth 5 (thorough 8, where the reachable state set closes) gives the values of a freshly evaluated reference model and identical reruns; (b) every schedule of the per-equation worker threads with <= 1 (thorough 2) preemptions at the source lines of Model.memoize, for 4 (6) request lists, yields a frame in which Y(t) = R(t) = Z(t) for a stochastic R.",
          "Preemption only at source-line granularity inside Model.memoize; sd_simulation.Thread replaced by a controlled thread class; 2 grid times.", "§4 C08"),
